@@ -302,7 +302,14 @@ class Sym:
     def _intdiv(self, a, b, flavor, want):
         env = cur()
         if a.sort() != z3.IntSort() or b.sort() != z3.IntSort():
-            raise HarnessError("floor division / modulo only modelled on integers")
+            # float floor-division / modulo: q = floor(a / b), r = a - b q  (python: remainder has the sign of b)
+            a, b = to_real(a), to_real(b)
+            if env.branch(b == 0):
+                if flavor == 'py':
+                    raise ZeroDivisionError("float modulo / floor division by zero (symbolic)")
+                return NonFinite('nan')
+            q = z3.ToReal(z3.ToInt(a / b))
+            return Sym(q if want == 'q' else a - b * q, flavor)
         if env.branch(b == 0):
             if flavor == 'py':
                 raise ZeroDivisionError("integer division or modulo by zero (symbolic)")
